@@ -753,6 +753,35 @@ impl Model {
                 if start.len() > MAX_KEY || end.len() > MAX_KEY {
                     return Self::expect(call, res, Res::Err(ErrKind::InvalidKeySize));
                 }
+                if now0 != now1 && *limit > 0 && start <= end {
+                    // The clock moved during the scan: each key is judged at its own instant
+                    // inside [now0, now1]. Keys visible at both ends must appear, keys
+                    // invisible at both must not, the others may.
+                    let Res::Pairs(got) = res else {
+                        return Self::expect(call, res, Res::Pairs(Vec::new()));
+                    };
+                    let mut ok = got.len() <= *limit && got.windows(2).all(|w| w[0].0 < w[1].0);
+                    for (k, v) in got {
+                        ok &= k >= start
+                            && k <= end
+                            && self.map.get(k).is_some_and(|g| g.value == *v && self.visible(g, now0));
+                    }
+                    let window_end = if got.len() < *limit { None } else { got.last().map(|(k, _)| k.clone()) };
+                    for (k, g) in self.map.range(start.clone()..=end.clone()) {
+                        let inside = window_end.as_ref().is_none_or(|e| k <= e);
+                        if inside && self.visible(g, now1) && !got.iter().any(|(gk, _)| gk == k) {
+                            ok = false;
+                        }
+                    }
+                    return if ok {
+                        Ok(())
+                    } else {
+                        fail(
+                            "result-mismatch",
+                            format!("{} returned {} which is not consistent with the model for any per-key instants in [{now0}, {now1}]", call.brief(), res.brief()),
+                        )
+                    };
+                }
                 let mut want = Vec::new();
                 if *limit > 0 && start <= end {
                     for (k, g) in self.map.range(start.clone()..=end.clone()) {
